@@ -37,6 +37,11 @@ type EncryptionSession struct {
 	inCipher  cipher.AEAD
 	outCipher cipher.AEAD
 
+	// Next in key, derived when a frame announces the sender's key rollover.
+	// It only replaces the in key once a frame has authenticated with it.
+	nextInKey    []byte
+	nextInCipher cipher.AEAD
+
 	// Replay Attack Mitigation
 	prioSeqHandler *SequenceHandler
 	reglSeqHandler *SequenceHandler
@@ -187,6 +192,8 @@ func (s *EncryptionSession) initFinalize(reverse bool, keyContext string) error 
 		s.outCipher = c1
 	}
 
+	s.nextInKey, s.nextInCipher = nil, nil
+
 	// Reset sequence handlers.
 	s.prioSeqHandler.Reset()
 	s.reglSeqHandler.Reset()
@@ -247,15 +254,21 @@ func (s *EncryptionSession) In(seqNum uint32, prio bool) (
 		sh = s.prioSeqHandler
 	}
 
-	// Check if we need to rollover key.
+	// Check if the frame announces a key rollover of the sender.
 	if sh.RolloverRequired(seqNum) {
 		if prio {
 			return nil, errors.New("prio sequence handler requested key rollover")
 		}
-		s.prioSeqHandler.ResetIn()
-		if err := s.rolloverInKey(); err != nil {
-			return nil, fmt.Errorf("rollover in key: %w", err)
+		// The frame is not authenticated yet: only hand out the next key.
+		// The rollover is applied by Check, after the frame was decrypted with it.
+		if s.nextInCipher == nil {
+			newKey, newCipher, err := rolloverKey(s.inKey)
+			if err != nil {
+				return nil, fmt.Errorf("rollover in key: %w", err)
+			}
+			s.nextInKey, s.nextInCipher = newKey, newCipher
 		}
+		return s.nextInCipher, nil
 	}
 
 	return s.inCipher, nil
@@ -299,18 +312,6 @@ func (s *EncryptionSession) Out(prio bool) (
 	return seqNum, ack, recvRate, s.outCipher, nil
 }
 
-// rolloverInKey rolls over the incoming encryption key.
-func (s *EncryptionSession) rolloverInKey() error {
-	newKey, newCipher, err := rolloverKey(s.inKey)
-	if err != nil {
-		return err
-	}
-
-	s.inKey = newKey
-	s.inCipher = newCipher
-	return nil
-}
-
 // rolloverOutKey rolls over the outgoing encryption key.
 func (s *EncryptionSession) rolloverOutKey() error {
 	newKey, newCipher, err := rolloverKey(s.outKey)
@@ -328,6 +329,18 @@ func (s *EncryptionSession) Check(seqNum uint32, prio bool) error {
 	if prio {
 		return s.prioSeqHandler.Check(seqNum)
 	}
+
+	// Apply a pending in key rollover, now that a frame of the new key has
+	// been authenticated.
+	s.lock.Lock()
+	if s.nextInCipher != nil && s.reglSeqHandler.RolloverRequired(seqNum) {
+		s.inKey, s.inCipher = s.nextInKey, s.nextInCipher
+		s.nextInKey, s.nextInCipher = nil, nil
+		s.reglSeqHandler.ResetIn()
+		s.prioSeqHandler.ResetIn()
+	}
+	s.lock.Unlock()
+
 	return s.reglSeqHandler.Check(seqNum)
 }
 
@@ -392,8 +405,6 @@ func (sh *SequenceHandler) RolloverRequired(seqNum uint32) bool {
 	case seqNum > rolloverLowerBound:
 		return false
 	default:
-		// Zero is only used as a rollover indicator and safeguard.
-		sh.highest = 0
 		return true
 	}
 }
